@@ -54,6 +54,16 @@ def isect(sk, *xs):
     Metrics.beginCollect()
     Metrics.trace("K", "intersect_0", consumable=True)
     Metrics.trace("K", "intersect_1", consumable=True)
+    if sk.get("predrain"):
+        # the consumer drains the (still empty) traces before the first fiber is intersected: an empty batch charges nothing and
+        # does not change what the following batches are charged
+        if model == "lf":
+            m.addTraces(Metrics.consumeTrace("K", "intersect_0"))
+            Metrics.consumeTrace("K", "intersect_1")
+        else:
+            m.addTraces(Metrics.consumeTrace("K", "intersect_0"), Metrics.consumeTrace("K", "intersect_1"))
+        if m.getNumIntersects() != 0:
+            return fail("an empty batch was charged %r" % m.getNumIntersects())
     for mm, a_k in a.getRoot():
         if model == "lf":
             for _ in Fiber.intersection(a_k, b.getRoot(), style="leader-follower"):
@@ -163,6 +173,9 @@ def obligations(tier):
                     bn = names("b", nb)
                     obs.append(Ob("isect/%s/%s/%s/%s" % (model, batching, "-".join(map(str, nas)), nb), "isect",
                                   dict(nas=nas, nb=nb, batching=batching, model=model), ps + bn, pre + chain_pre(bn)))
+                    if nas in ([1], [1, 1]) and nb == 1:
+                        obs.append(Ob("isect/%s/%s/%s/%s/predrain" % (model, batching, "-".join(map(str, nas)), nb), "isect",
+                                      dict(nas=nas, nb=nb, batching=batching, model=model, predrain=True), ps + bn, pre + chain_pre(bn)))
     for ns in ([[1, 1], [2, 1], [1, 2], [2, 2], [1, 1, 1], [2, 1, 1]] if q else [[1, 1], [2, 1], [1, 2], [2, 2], [1, 1, 1], [2, 1, 1], [2, 2, 1], [1, 1, 1, 1], [3, 1]]):
         for radix in (2, 3, 100):
             for latN in (False, True):
